@@ -356,6 +356,28 @@ func (h *harness) buildCases(r *gen.Rand, n int) {
 		for j := 0; j < nd; j++ {
 			bc.Docs = append(bc.Docs, genDoc(r, j, []string{"main", "dev", "rel"}, gen.Pick(r, []int{3, 15, 40})))
 		}
+		if len(bc.Docs) > 0 && r.Chance(1, 2) {
+			// aim the limit exactly at a cumulative size, so that `size > ShardMax` vs `>=` matters
+			k := r.Intn(len(bc.Docs))
+			sum := 0
+			for j := 0; j <= k; j++ {
+				d := bc.Docs[j]
+				sum += len(d.Name)
+				if naiveSkip(d, bc.SizeMax, bc.TrigramMax) == index.SkipReasonNone {
+					sum += len(d.Content)
+				}
+			}
+			if r.Chance(1, 3) && k > 0 {
+				// a later flush boundary: size counts from the previous flush, so restart the sum there
+				sum = len(bc.Docs[k].Name)
+				if naiveSkip(bc.Docs[k], bc.SizeMax, bc.TrigramMax) == index.SkipReasonNone {
+					sum += len(bc.Docs[k].Content)
+				}
+			}
+			if sum > 0 {
+				bc.ShardMax = sum
+			}
+		}
 		h.buildCase(bc, "build")
 	}
 }
